@@ -58,8 +58,50 @@ Example live_view_promoted :          (* non-vacuity: promoted field "1" of an e
               lread h' (LCell 0 [SField 0; SField 0]) = Some (GInt KInt 9)).
 Proof. repeat split; try reflexivity. eexists; split; reflexivity. Qed.
 
+(* 4. Element wrappers of a slice/array of structs (valueCache, copy-on-change).
+      [inv]: the Live wrappers are exactly the cached ones (so a slot has at most one Live wrapper).
+      It holds initially and along EVERY history of get / put / put-handle / delete / length= (shrink and
+      grow) / Go-side element write / write-through-handle / read.
+      LIMIT: the swap step of the in-place sort (PSwap) is part of the model and of the correspondence
+      check, but its preservation lemma is not proved yet: histories here are swap-free ([noswap]). *)
+Section Elements.
+Context {V U : Type} (zero : V) (app : U -> V -> V).
+
+Theorem inv_preserved : forall (l : list V) (ops : list (pop V U)),
+  noswap V U ops = true -> inv V (fst (irun V zero U app (iinit V l) ops)).
+Proof. intros. apply (Proofs.inv_run V zero U app); auto. apply Proofs.inv_init. Qed.
+
+(* a wrapper handed out earlier keeps denoting the value it was taken from (still-valid Live slot or
+   Detached copy) across every history that does not write to it (through a handle bound to it, or by
+   an in-place Go assignment to the slot it currently lives in) *)
+Theorem handed_out_wrappers_stable : forall (ops : list (pop V U)) s w,
+  inv V s -> noswap V U ops = true -> untouched V zero U app s w ops = true ->
+  wdenote V s w <> None ->
+  wdenote V (fst (irun V zero U app s ops)) w = wdenote V s w.
+Proof. exact (Proofs.stable_run V zero U app). Qed.
+
+(* live view of elements: a write through a Live wrapper lands in the Go slice at its slot *)
+Theorem write_through_live : forall s k u w i v,
+  nth_error (i_hs V s) k = Some (Some w) -> nth_error (i_ws V s) w = Some (Live i) ->
+  nth_error (i_arr V s) i = Some v ->
+  nth_error (i_arr V (fst (istep V zero U app s (PWriteH k u)))) i = Some (app u v) /\
+  wdenote V (fst (istep V zero U app s (PWriteH k u))) w = Some (app u v).
+Proof. exact (Proofs.write_through_live V zero U app). Qed.
+End Elements.
+
+Example handed_out_stable_nonvacuous :     (* var e = arr[1]; arr[1] = 9; arr.length = 1; arr.push(..): e still 20 *)
+  let ops := [PGet 1; PPut 1 9%Z; PLen 1; PPut 3 7%Z; PDel 0; PReadH 0] : list (pop Z Z) in
+  let s1 := fst (istep Z 0%Z Z Z.add (iinit Z [10; 20; 30]%Z) (PGet 1)) in
+  untouched Z 0%Z Z Z.add s1 0 (tl ops) = true /\ wdenote Z s1 0 = Some 20%Z /\
+  snd (irun Z 0%Z Z Z.add (iinit Z [10; 20; 30]%Z) ops) = [OUnit; OUnit; OUnit; OUnit; OUnit; OV (Some 20%Z)] /\
+  i_arr Z (fst (irun Z 0%Z Z Z.add (iinit Z [10; 20; 30]%Z) ops)) = [0; 0; 0; 7]%Z.
+Proof. repeat split; reflexivity. Qed.
+
 Print Assumptions export_toValue_norm.
 Print Assumptions export_toValue_id.
 Print Assumptions live_view_write_then_read.
 Print Assumptions live_view_frame.
 Print Assumptions live_view_fields.
+Print Assumptions inv_preserved.
+Print Assumptions handed_out_wrappers_stable.
+Print Assumptions write_through_live.
